@@ -116,8 +116,19 @@ func c05RuleFile(cs c05Case) scen.RuleFile {
 	for _, p := range cs.Principals {
 		ids = append(ids, p.ID)
 	}
-	return scen.RuleFile{Name: "targets", Principals: cs.Principals, Signers: []string{"root"},
-		Rules: []scen.Rule{{Name: "rule", Patterns: []string{"git:refs/heads/main"}, Principals: ids, Threshold: cs.Threshold}}}
+	// A second rule over the same path with its own principal (a key that never
+	// signs anything here) and threshold: the rule under test must keep trusting
+	// exactly its own principals whatever else matches the path.
+	decoyP := scen.Principal{ID: "Pdecoy", Keys: []string{"kdecoy"}}
+	decoyP.ID = keyPrincipal("kdecoy").ID
+	rule := scen.Rule{Name: "rule", Patterns: []string{"git:refs/heads/main"}, Principals: ids, Threshold: cs.Threshold}
+	decoy := scen.Rule{Name: "decoy", Patterns: []string{"git:refs/heads/*"}, Principals: []string{decoyP.ID}, Threshold: 1}
+	rules := []scen.Rule{rule, decoy}
+	if cs.Threshold%2 == 1 {
+		rules = []scen.Rule{decoy, rule}
+	}
+	prs := append(append([]scen.Principal{}, cs.Principals...), keyPrincipal("kdecoy"))
+	return scen.RuleFile{Name: "targets", Principals: prs, Signers: []string{"root"}, Rules: rules}
 }
 
 type c05Env struct {
@@ -174,10 +185,12 @@ func (e *c05Env) verifier(cs c05Case) (*policy.SignatureVerifier, error) {
 	if err != nil {
 		return nil, err
 	}
-	if len(vs) != 1 {
-		return nil, fmt.Errorf("expected exactly one verifier, got %d", len(vs))
+	for _, v := range vs {
+		if v.Name() == "rule" {
+			return v, nil
+		}
 	}
-	return vs[0], nil
+	return nil, fmt.Errorf("the rule under test is not among the %d verifiers for its path", len(vs))
 }
 
 // ----- oracle
